@@ -49,7 +49,7 @@ Record LCI (s : sys) (gl : ledger) (a : Vote.sys) : Prop := {
             HasPrefix gl (log (nd_of s v)) t m \/ ExcLe gl a t m (term (nd_of s v));
   c_own : forall t c, Ld a t c -> term (nd_of s c) = t -> log (nd_of s c) = gl t;
   c_rv : forall c dst u c' lli llt, In (c, dst, RV u c' lli llt) (pool s) ->
-            u <= term (nd_of s c) /\
+            c <> dst /\ u <= term (nd_of s c) /\
             (rl (nd_of s c) = Candidate -> term (nd_of s c) = u -> last_info (log (nd_of s c)) = (lli, llt));
   c_cand : forall c, c < n_nodes cfg -> rl (nd_of s c) = Candidate ->
             forall e, In e (log (nd_of s c)) -> eterm e < term (nd_of s c);
@@ -127,7 +127,7 @@ Lemma lci_frame s gl a a' i x out :
   (rl x = Candidate -> forall e, In e (log x) -> eterm e < term x) ->
   (forall d t0 fol mi, ~ In (d, AER t0 true fol mi) out) ->
   (forall d u c' lli llt, In (d, RV u c' lli llt) out ->
-     u <= term x /\ (rl x = Candidate -> term x = u -> last_info (log x) = (lli, llt))) ->
+     i <> d /\ u <= term x /\ (rl x = Candidate -> term x = u -> last_info (log x) = (lli, llt))) ->
   (forall d u voter, In (d, RVR u true voter) out ->
      d <> i /\ u <= term x /\ u <= term (nd_of s d) /\
      forall t m, Acked s gl a i t m -> t < u ->
@@ -166,7 +166,7 @@ Proof.
     destruct (lm_G2 _ _ _ _ HM _ _ Hld) as [_ G2]. lia.
   - (* c_rv *)
     intros c dst u c' lli llt Hin. apply pool_upd in Hin. destruct Hin as [Hin|[d [m0 [Ho E]]]].
-    + destruct (A4 _ _ _ _ _ _ Hin) as [B1 B2]. split; [specialize (Tm c); lia|].
+    + destruct (A4 _ _ _ _ _ _ Hin) as [B0 [B1 B2]]. split; [exact B0|]. split; [specialize (Tm c); lia|].
       rewrite Lg, Nd. destruct (N.eqb_spec c i) as [->|]; [|exact B2].
       intros Hc Ht. destruct (KC Hc) as [[Hoc Hot]|Hlt]; [apply B2; [exact Hoc|lia]|lia].
     + injection E as E1 E2 E3; subst. rewrite Nd, N.eqb_refl. apply (Hrv _ _ _ _ _ Ho).
@@ -428,7 +428,7 @@ Proof.
     pose proof (Vote.election_safety n q quorum_ok a HI _ _ _ Hld Hl0). lia.
   - (* c_rv *)
     intros c dst u c' lli llt Hin. apply pool_upd in Hin. destruct Hin as [Hin|[d [m0 [Ho E]]]].
-    + destruct (A4 _ _ _ _ _ _ Hin) as [B1 B2]. split; [specialize (Tm c); lia|].
+    + destruct (A4 _ _ _ _ _ _ Hin) as [B0 [B1 B2]]. split; [exact B0|]. split; [specialize (Tm c); lia|].
       rewrite Nd. destruct (N.eqb_spec c i) as [->|]; [rewrite Hrl; discriminate|exact B2].
     + destruct Ho as [E'|[]]. inversion E'; subst. discriminate.
   - (* c_cand *)
@@ -529,8 +529,8 @@ Proof.
       destruct (N.eqb_spec c i) as [->|]; [rewrite Hlog; apply A3; [exact Hold|unfold u in *; lia]|apply A3; assumption].
   - (* c_rv *)
     intros c dst u0 c' lli llt Hin. apply pool_upd in Hin. destruct Hin as [Hin|[d [m0 [[] _]]]].
-    destruct (A4 _ _ _ _ _ _ Hin) as [B1 B2]. rewrite Nd. destruct (N.eqb_spec c i) as [->|]; [|auto].
-    split; [unfold u in *; lia|]. rewrite Hl. discriminate.
+    destruct (A4 _ _ _ _ _ _ Hin) as [B0 [B1 B2]]. rewrite Nd. destruct (N.eqb_spec c i) as [->|]; [|auto].
+    split; [exact B0|]. split; [unfold u in *; lia|]. rewrite Hl. discriminate.
   - (* c_cand *)
     intros c Hc0. rewrite Nd. destruct (N.eqb_spec c i) as [->|]; [rewrite Hl; discriminate|apply A5; exact Hc0].
   - (* c_grant *)
@@ -682,7 +682,7 @@ Proof.
       * rewrite Glne by exact Hnt. apply A3; assumption.
   - (* c_rv *)
     intros c dst u c' lli llt Hin. apply pool_upd in Hin. destruct Hin as [Hin|[d [m0 [[] _]]]].
-    destruct (A4 _ _ _ _ _ _ Hin) as [B1 B2]. rewrite Tmx. split; [exact B1|]. rewrite Nd.
+    destruct (A4 _ _ _ _ _ _ Hin) as [B0 [B1 B2]]. rewrite Tmx. split; [exact B0|]. split; [exact B1|]. rewrite Nd.
     destruct (N.eqb_spec c i) as [->|]; [|exact B2]. cbn [rl x]. fold nd. rewrite Hl. discriminate.
   - (* c_cand *)
     intros c Hc0. rewrite Nd. destruct (N.eqb_spec c i) as [->|]; [cbn [rl x]; fold nd; rewrite Hl; discriminate|apply A5; exact Hc0].
@@ -703,6 +703,402 @@ Proof.
         [left; rewrite Peq; assumption|right; apply ExLt; assumption].
   - (* c_ae_src *)
     intros s0 dst t0 ldr pi pt es lc Hin. apply pool_upd in Hin. destruct Hin as [Hin|[d [m0 [[] _]]]]. eapply A8; eauto.
+Qed.
+
+
+(* ---------------- the full invariant and its preservation ---------------- *)
+Definition FI (s : sys) (gl : ledger) : Prop :=
+  exists a, R cfg s a /\ Vote.Inv n q a /\ Vote.Inv8 a /\ LMI cfg s gl a /\ LCI s gl a.
+
+Lemma inv8_step01 a a' : Vote.Inv8 a -> step01 cfg a a' -> Vote.Inv8 a'.
+Proof. intros H [->|St]; [exact H|eapply Vote.step_inv8; eauto]. Qed.
+
+Lemma h_rv_resp self nd t c lli llt ok nd' r :
+  h_rv self nd t c lli llt ok = (nd', r) ->
+  exists tt g, r = RVR tt g self /\
+    (g = true -> tt = t /\ term nd <= t /\ term nd' = t /\
+       (let '(mli, mlt) := last_info (log nd) in
+        N.ltb mlt llt || (N.eqb llt mlt && N.ltb mli lli) || (N.eqb llt mlt && N.eqb lli mli)) = true).
+Proof.
+  unfold h_rv. intros H.
+  set (nd1 := if N.ltb (term nd) t then step_down nd t else nd) in *.
+  assert (L1 : log nd1 = log nd) by (unfold nd1; destruct (N.ltb (term nd) t); reflexivity).
+  assert (T1 : term nd <= term nd1) by (unfold nd1; destruct (N.ltb_spec (term nd) t); cbn; lia).
+  destruct (N.eqb_spec t (term nd1)) as [Et|Hne].
+  - rewrite L1 in H. destruct (last_info (log nd)) as [mli mlt].
+    match type of H with (if ?c then _ else _) = _ => destruct c eqn:G end; injection H as <- <-.
+    + exists (term nd1), true. split; [reflexivity|]. intros _. cbn [term set_term_vote].
+      rewrite !andb_true_iff in G. destruct G as [[_ G] _]. repeat split; try lia.
+    + exists (term nd1), false. split; [reflexivity|discriminate].
+  - injection H as <- <-. exists (term nd1), false. split; [reflexivity|discriminate].
+Qed.
+
+
+Record OutOk (s : sys) (gl : ledger) (a : Vote.sys) (i : N) (x : node) (out : list (N * msg)) : Prop := {
+  oo_ae : forall d t ldr pi pt es lc, In (d, AE t ldr pi pt es lc) out ->
+     i <> d /\ Ld a t i /\
+     es = firstn (length es) (skipn (N.to_nat pi) (gl t)) /\
+     (pi = 0 \/ term_at (gl t) (N.to_nat pi) = Some pt) /\ (N.to_nat pi <= length (gl t))%nat;
+  oo_rv : forall d u c' lli llt, In (d, RV u c' lli llt) out ->
+     i <> d /\ u <= term x /\ (rl x = Candidate -> term x = u -> last_info (log x) = (lli, llt));
+  oo_rvr : forall d u voter, In (d, RVR u true voter) out ->
+     d <> i /\ u <= term x /\ u <= term (nd_of s d) /\
+     forall t m, Acked s gl a i t m -> t < u ->
+       rl (nd_of s d) = Candidate -> term (nd_of s d) = u ->
+       HasPrefix gl (log (nd_of s d)) t m \/ ExcC gl a t m u d
+}.
+
+Lemma OutOk_nil s gl a i x : OutOk s gl a i x [].
+Proof. constructor; intros; contradiction. Qed.
+
+Lemma fi_frame s gl o i x out :
+  FI s gl -> fst (gstep cfg ru s o) = upd_node s i x out -> i < n_nodes cfg ->
+  K1 (nd_of s i) x ->
+  (rl x = Candidate -> forall e, In e (log x) -> eterm e < term x) ->
+  (forall d t0 fol mi, ~ In (d, AER t0 true fol mi) out) ->
+  (forall a, R cfg s a -> Vote.Inv n q a -> LMI cfg s gl a -> LCI s gl a -> OutOk s gl a i x out) ->
+  FI (upd_node s i x out) gl.
+Proof.
+  intros [a [HR [HI [H8 [HM HC]]]]] E Hi HK Hcand Hnoaer Hout.
+  destruct (sim_step cfg ru quorum_ok s a o HR) as [a' [S01 HR']]. rewrite E in HR'.
+  destruct (Hout a HR HI HM HC) as [Oae Orv Orvr].
+  assert (HLs : forall p, In p (Vote.leaders a') <-> In p (Vote.leaders a)).
+  { eapply (leaders_same cfg quorum_ok); eauto. intros j Hj Hl Hc.
+    rewrite (nth_upd s a) in Hl by assumption. destruct (N.eqb_spec j i) as [->|]; [|congruence].
+    destruct HK as [_ [_ [KL _]]]. destruct (KL Hl) as [Hl' _]. congruence. }
+  exists a'. split; [exact HR'|]. split; [eapply (inv_step01 cfg quorum_ok); eauto|].
+  split; [eapply inv8_step01; eauto|]. split.
+  - destruct HK as [K1a [K1b [K1c K1d]]].
+    eapply (lmi_frame cfg quorum_ok); eauto. intros d t ldr pi pt es lc Hin.
+    destruct (Oae _ _ _ _ _ _ _ Hin) as [_ [B1 B2]]. split; assumption.
+  - eapply lci_frame; eauto.
+    intros d t0 ldr pi pt es lc Hin. apply (Oae _ _ _ _ _ _ _ Hin).
+Qed.
+
+Lemma fi_ae s gl o i x src t pi pt es mi lc ldr :
+  FI s gl -> fst (gstep cfg ru s o) = upd_node s i x [(src, AER t true i mi)] -> i < n_nodes cfg ->
+  In (src, i, AE t ldr pi pt es lc) (pool s) ->
+  (pi = 0 \/ (pi <= llen (log (nd_of s i)) /\ term_at (log (nd_of s i)) (N.to_nat pi) = Some pt)) ->
+  rl x = Follower -> term x = t -> term (nd_of s i) <= t ->
+  log x = append_entries es (log (nd_of s i)) ->
+  mi = follower_ack ru pi (last_new pi es) (llen (log x)) ->
+  FI (upd_node s i x [(src, AER t true i mi)]) gl.
+Proof.
+  intros [a [HR [HI [H8 [HM HC]]]]] E Hi Hin Hok Hrl Hterm Hge Hlog Hmi.
+  destruct (sim_step cfg ru quorum_ok s a o HR) as [a' [S01 HR']]. rewrite E in HR'.
+  destruct (lm_M1 _ _ _ _ HM _ _ _ _ _ _ _ _ Hin) as [Hld [M1 [M2 M3]]].
+  pose proof (c_ae_src _ _ _ HC _ _ _ _ _ _ _ _ Hin) as Hsd.
+  assert (HLs : forall p, In p (Vote.leaders a') <-> In p (Vote.leaders a)).
+  { eapply (leaders_same cfg quorum_ok); eauto. intros j Hj Hl Hc.
+    rewrite (nth_upd s a) in Hl by assumption. destruct (N.eqb_spec j i) as [->|]; congruence. }
+  exists a'. split; [exact HR'|]. split; [eapply (inv_step01 cfg quorum_ok); eauto|].
+  split; [eapply inv8_step01; eauto|]. split.
+  - eapply (lmi_ae cfg quorum_ok); eauto. intros d t0 ldr0 pi0 pt0 es0 lc0 [Eq|[]]. discriminate.
+  - eapply lci_ae; eauto.
+Qed.
+
+Lemma fi_propose s gl o i p :
+  FI s gl -> i < n_nodes cfg -> rl (nd_of s i) = Leader ->
+  let nd := nd_of s i in
+  let x := Node (term nd) (voted nd) (rl nd) (votes nd) (log nd ++ [E (term nd) (llen (log nd) + 1) p])
+                (commit nd) (in_prevote nd) (prevotes nd) (lvs nd) in
+  fst (gstep cfg ru s o) = upd_node s i x [] ->
+  FI (upd_node s i x []) (gl_set gl (term nd) (log x)).
+Proof.
+  intros [a [HR [HI [H8 [HM HC]]]]] Hi Hl nd x E.
+  destruct (sim_step cfg ru quorum_ok s a o HR) as [a' [S01 HR']]. rewrite E in HR'.
+  assert (HLs : forall pp, In pp (Vote.leaders a') <-> In pp (Vote.leaders a)).
+  { eapply (leaders_same cfg quorum_ok); eauto. intros j Hj Hlj Hc.
+    rewrite (nth_upd s a) in Hlj by assumption. destruct (N.eqb_spec j i) as [->|]; congruence. }
+  exists a'. split; [exact HR'|]. split; [eapply (inv_step01 cfg quorum_ok); eauto|].
+  split; [eapply inv8_step01; eauto|]. split.
+  - apply (lmi_propose cfg quorum_ok s gl a a'); auto.
+  - apply (lci_propose s gl a a'); auto.
+Qed.
+
+Lemma fi_leader s gl o i x :
+  FI s gl -> fst (gstep cfg ru s o) = upd_node s i x [] -> i < n_nodes cfg ->
+  rl (nd_of s i) = Candidate -> rl x = Leader -> log x = log (nd_of s i) -> term x = term (nd_of s i) ->
+  votes x <> [] -> N.leb (quorum cfg) (llen (votes x)) = true ->
+  FI (upd_node s i x []) (gl_set gl (term x) (log x)).
+Proof.
+  intros [a [HR [HI [H8 [HM HC]]]]] E Hi Hc Hl Hlog Hterm Hvne Hquo.
+  destruct (sim_step cfg ru quorum_ok s a o HR) as [a' [S01 HR']]. rewrite E in HR'.
+  pose proof (inv_step01 cfg quorum_ok _ _ HI S01) as HI'. pose proof (inv8_step01 _ _ H8 S01) as H8'.
+  assert (Hmono : forall p, In p (Vote.leaders a) -> In p (Vote.leaders a')) by (apply (leaders_mono cfg); exact S01).
+  assert (Hnew : forall p, In p (Vote.leaders a') -> p = (N.to_nat (term x), N.to_nat i) \/ In p (Vote.leaders a)).
+  { intros [t j] Hin. destruct S01 as [->|St]; [right; exact Hin|].
+    destruct (Vote.step_leaders_new _ _ _ _ St _ _ Hin) as [H|[Hj [L' [T' [C0 _]]]]]; [right; exact H|].
+    assert (Hjn : N.of_nat j < n_nodes cfg) by (fold n in Hj; lia).
+    pose proof (R_nodes _ _ _ HR' (N.of_nat j) Hjn) as E'. rewrite Nat2N.id in E'. rewrite E' in L', T'.
+    pose proof (R_nodes _ _ _ HR (N.of_nat j) Hjn) as E0. rewrite Nat2N.id in E0. rewrite E0 in C0.
+    rewrite (nth_upd s a) in L', T' by assumption.
+    destruct (N.eqb_spec (N.of_nat j) i) as [Eji|Hne].
+    + left. cbn in T'. subst t. f_equal. lia.
+    + exfalso. cbn in L', C0. destruct (rl (nd_of s (N.of_nat j))); cbn in *; discriminate. }
+  exists a'. split; [exact HR'|]. split; [exact HI'|]. split; [exact H8'|]. split.
+  - apply (lmi_leader cfg quorum_ok s gl a (upd_node s i x []) a' i x); auto.
+  - apply (lci_leader s gl a a' i x); auto.
+Qed.
+
+
+Lemma T1_cand s gl a i x :
+  LMI cfg s gl a -> log x = log (nd_of s i) -> term (nd_of s i) < term x ->
+  forall e, In e (log x) -> eterm e < term x.
+Proof. intros HM Hl Ht e He. rewrite Hl in He. pose proof (lm_T1 _ _ _ _ HM i e He). lia. Qed.
+
+Theorem fi_step : forall s gl o, FI s gl -> exists gl', FI (fst (gstep cfg ru s o)) gl'.
+Proof.
+  intros s gl o HF.
+  assert (Stay : exists gl', FI s gl') by (exists gl; exact HF).
+  pose proof HF as [a0 [HR0 [HI0 [H80 [HM0 HC0]]]]].
+  destruct o as [i|i|i|i|i p ok|k ok|i]; cbn [gstep].
+  - (* GElect *)
+    unfold valid_id. destruct (N.ltb_spec i (n_nodes cfg)) as [Hi|]; cbn [fst]; [|exact Stay].
+    exists gl. eapply (fi_frame s gl (GElect i)); eauto.
+    + cbn [gstep]. unfold valid_id. destruct (N.ltb_spec i (n_nodes cfg)); [reflexivity|lia].
+    + apply (K1_elect cfg quorum_ok).
+    + intros _. apply (T1_cand s gl a0 i); auto. cbn. lia.
+    + intros d t0 fol mi Hin. destruct (rv_msgs_ok cfg quorum_ok _ _ _ _ Hin) as [_ [? [? E]]]. discriminate.
+    + intros a HR HI HM HC. constructor.
+      * intros d t ldr pi pt es lc Hin. destruct (rv_msgs_ok cfg quorum_ok _ _ _ _ Hin) as [_ [? [? E]]]. discriminate.
+      * intros d u c' lli llt Hin. pose proof Hin as Hin'. unfold rv_msgs in Hin'.
+        destruct (last_info (log (start_election i (nd_of s i)))) as [a1 b1] eqn:El.
+        apply in_map_iff in Hin'. destruct Hin' as [pp [E Hp]]. injection E as <- <- <- <- <-.
+        destruct (peers_valid cfg quorum_ok i pp Hp) as [_ Hne]. split; [congruence|]. split; [apply N.le_refl|]. intros _ _. first [exact El | reflexivity].
+      * intros d u voter Hin. destruct (rv_msgs_ok cfg quorum_ok _ _ _ _ Hin) as [_ [? [? E]]]. discriminate.
+  - (* GPreVote *)
+    unfold valid_id. destruct (N.ltb_spec i (n_nodes cfg)) as [Hi|]; cbn [fst]; [|exact Stay].
+    assert (Hpv : forall d m0, In (d, m0) (pv_msgs cfg i (start_pre_vote i (nd_of s i))) -> exists a1 b1 c1 d1, m0 = PV a1 b1 c1 d1).
+    { intros d m0 Hin. unfold pv_msgs in Hin. destruct (last_info _) as [a1 b1].
+      apply in_map_iff in Hin. destruct Hin as [pp [E _]]. injection E as <- <-. eauto. }
+    exists gl. eapply (fi_frame s gl (GPreVote i)); eauto.
+    + cbn [gstep]. unfold valid_id. destruct (N.ltb_spec i (n_nodes cfg)); [reflexivity|lia].
+    + apply (K1_same cfg quorum_ok); reflexivity.
+    + cbn [start_pre_vote rl log term]. apply (c_cand _ _ _ HC0 i Hi).
+    + intros d t0 fol mi Hin. destruct (Hpv _ _ Hin) as [? [? [? [? E]]]]. discriminate.
+    + intros a HR HI HM HC. constructor; intros; match goal with H : In _ _ |- _ => destruct (Hpv _ _ H) as [? [? [? [? E]]]]; discriminate end.
+  - (* GRequestVotes *)
+    unfold valid_id. destruct (N.ltb_spec i (n_nodes cfg)) as [Hi|]; cbn [fst]; [|exact Stay].
+    destruct (rl (nd_of s i)) eqn:Er; try exact Stay.
+    exists gl. eapply (fi_frame s gl (GRequestVotes i)); eauto.
+    + cbn [gstep]. unfold valid_id. destruct (N.ltb_spec i (n_nodes cfg)); [|lia]. rewrite Er. reflexivity.
+    + apply (K1_refl cfg quorum_ok).
+    + intros _. apply (c_cand _ _ _ HC0 i Hi Er).
+    + intros d t0 fol mi Hin. destruct (rv_msgs_ok cfg quorum_ok _ _ _ _ Hin) as [_ [? [? E]]]. discriminate.
+    + intros a HR HI HM HC. constructor.
+      * intros d t ldr pi pt es lc Hin. destruct (rv_msgs_ok cfg quorum_ok _ _ _ _ Hin) as [_ [? [? E]]]. discriminate.
+      * intros d u c' lli llt Hin. pose proof Hin as Hin'. unfold rv_msgs in Hin'.
+        destruct (last_info (log (nd_of s i))) as [a1 b1] eqn:El.
+        apply in_map_iff in Hin'. destruct Hin' as [pp [E Hp]]. injection E as <- <- <- <- <-.
+        destruct (peers_valid cfg quorum_ok i pp Hp) as [_ Hne]. split; [congruence|]. split; [apply N.le_refl|]. intros _ _. first [exact El | reflexivity].
+      * intros d u voter Hin. destruct (rv_msgs_ok cfg quorum_ok _ _ _ _ Hin) as [_ [? [? E]]]. discriminate.
+  - (* GHeartbeat *)
+    unfold valid_id. destruct (N.ltb_spec i (n_nodes cfg)) as [Hi|]; cbn [fst]; [|exact Stay].
+    assert (Hhb : forall d m0, In (d, m0) (heartbeat_msgs cfg i (nd_of s i)) ->
+              rl (nd_of s i) = Leader /\ In d (peers_of cfg i) /\
+              exists pi pt es, entries_for (nd_of s i) d = (pi, pt, es) /\ m0 = AE (term (nd_of s i)) i pi pt es (commit (nd_of s i))).
+    { intros d m0 Hin. unfold heartbeat_msgs in Hin. destruct (rl (nd_of s i)) eqn:Er; try contradiction.
+      apply in_map_iff in Hin. destruct Hin as [pp [E Hp]]. destruct (entries_for (nd_of s i) pp) as [[pi0 pt0] es0] eqn:Ee.
+      injection E as <- <-. split; [reflexivity|]. split; [exact Hp|]. eauto. }
+    exists gl. eapply (fi_frame s gl (GHeartbeat i)); eauto.
+    + cbn [gstep]. unfold valid_id. destruct (N.ltb_spec i (n_nodes cfg)); [reflexivity|lia].
+    + apply (K1_refl cfg quorum_ok).
+    + apply (c_cand _ _ _ HC0 i Hi).
+    + intros d t0 fol mi Hin. destruct (Hhb _ _ Hin) as [_ [_ [? [? [? [_ E]]]]]]. discriminate.
+    + intros a HR HI HM HC. constructor.
+      * intros d t ldr pi pt es lc Hin. destruct (Hhb _ _ Hin) as [Er [Hp [pi0 [pt0 [es0 [Ee E]]]]]].
+        injection E as E1 E2 E3 E4 E5 E6. subst t ldr pi pt es lc.
+        pose proof (entries_for_ok cfg quorum_ok (nd_of s i) d (lm_wi_log _ _ _ _ HM i)) as Hok. rewrite Ee in Hok.
+        destruct (peers_valid cfg quorum_ok i d Hp) as [_ Hne]. split; [congruence|].
+        rewrite <- (lm_L3 _ _ _ _ HM i Hi Er). split; [|exact Hok].
+        pose proof (Vote.I7 _ _ _ HI (N.to_nat i)) as G. rewrite (R_nodes _ _ _ HR i Hi) in G. cbn in G.
+        rewrite Er in G. apply G. reflexivity.
+      * intros d u c' lli llt Hin. destruct (Hhb _ _ Hin) as [_ [_ [? [? [? [_ E]]]]]]. discriminate.
+      * intros d u voter Hin. destruct (Hhb _ _ Hin) as [_ [_ [? [? [? [_ E]]]]]]. discriminate.
+  - (* GPropose *)
+    unfold valid_id. destruct (N.ltb_spec i (n_nodes cfg)) as [Hi|]; cbn [fst]; [|exact Stay].
+    assert (Quiet : forall okb, propose (nd_of s i) p okb = nd_of s i ->
+              exists gl', FI (upd_node s i (propose (nd_of s i) p okb) []) gl').
+    { intros okb Ep. exists gl. eapply (fi_frame s gl (GPropose i p okb)); eauto.
+      all: try (intros ? ? ? ? []; fail).
+      all: try (intros; apply OutOk_nil; fail).
+      all: try (rewrite Ep; apply (K1_refl cfg quorum_ok); fail).
+      all: try (rewrite Ep; apply (c_cand _ _ _ HC0 i Hi); fail).
+      all: try (cbn [gstep]; unfold valid_id; destruct (N.ltb_spec i (n_nodes cfg)); [reflexivity|lia]). }
+    unfold propose in *. destruct (rl (nd_of s i)) eqn:Er; try (apply (Quiet ok); reflexivity).
+    destruct ok; [|apply (Quiet false); reflexivity].
+    rewrite <- Er. eexists. apply (fi_propose s gl (GPropose i p true) i p HF Hi Er).
+    cbn [gstep]. unfold valid_id. destruct (N.ltb_spec i (n_nodes cfg)); [|lia]. unfold propose. rewrite Er. reflexivity.
+  - (* GDeliver *)
+    destruct (nth_error (pool s) (N.to_nat k)) as [[[src dst] m]|] eqn:Ek; cbn [fst]; [|exact Stay].
+    pose proof (nth_error_In _ _ Ek) as Hin.
+    destruct (R_ids _ _ _ HR0 _ _ _ Hin) as [Hsrc Hdst].
+    unfold valid_id. destruct (N.ltb_spec dst (n_nodes cfg)) as [_|]; [|lia]. cbn [fst].
+    assert (Eg : forall s', deliver cfg ru s src dst m ok = s' -> fst (gstep cfg ru s (GDeliver k ok)) = s').
+    { intros s' <-. cbn [gstep]. rewrite Ek. unfold valid_id. destruct (N.ltb_spec dst (n_nodes cfg)); [reflexivity|lia]. }
+    destruct m as [t cand lli llt|t g voter|t cand lli llt|t g voter|t ldr pi pt es lc|t succ fol mi]; cbn [deliver] in *; cbv zeta in *.
+    + (* RV *)
+      destruct (h_rv dst (nd_of s dst) t cand lli llt ok) as [nd' r] eqn:Eh.
+      destruct (h_rv_resp _ _ _ _ _ _ _ _ _ Eh) as [tt [g [Er Hg]]]. subst r.
+      pose proof (h_rv_K1 cfg quorum_ok dst (nd_of s dst) t cand lli llt ok) as HK. rewrite Eh in HK. cbn [fst] in HK.
+      exists gl. eapply (fi_frame s gl (GDeliver k ok)); eauto.
+      * intros Hc. destruct HK as [Kl [_ [_ KC]]]. destruct (KC Hc) as [[Hoc Hot]|Hlt].
+        -- intros e He. rewrite Kl in He. rewrite Hot. apply (c_cand _ _ _ HC0 dst Hdst Hoc e He).
+        -- apply (T1_cand s gl a0 dst); auto.
+      * intros d t0 fol mi [E|[]]. discriminate.
+      * intros a HR HI HM HC. constructor.
+        -- intros d t0 ldr pi pt es lc [E|[]]. discriminate.
+        -- intros d u c' l1 l2 [E|[]]. discriminate.
+        -- intros d u voter0 [E|[]]. injection E as <- <- Eg0 <-. subst g. destruct (Hg eq_refl) as [-> [Ht1 [Ht2 Hchk]]].
+           destruct (c_rv _ _ _ HC _ _ _ _ _ _ Hin) as [Hne [Hu Hli]].
+           split; [exact Hne|]. split; [lia|]. split; [exact Hu|].
+           intros t0 m Hack Ht0 Hcd Htd.
+           assert (Ecand : src = cand) by (eapply (R_rv _ _ _ HR); eauto). subst cand.
+           eapply (grant_prefix s gl a dst src t lli llt t0 m); eauto.
+    + (* RVR *)
+      unfold h_rvr in *. destruct (rl (nd_of s dst)) eqn:Er.
+      * exists gl. eapply (fi_frame s gl (GDeliver k ok)); eauto.
+        all: try (intros ? ? ? ? []; fail).
+        all: try (intros; apply OutOk_nil; fail).
+        all: try (apply (K1_refl cfg quorum_ok); fail).
+        all: try (rewrite Er; discriminate).
+      * destruct (N.ltb_spec (term (nd_of s dst)) t).
+        -- exists gl. eapply (fi_frame s gl (GDeliver k ok)); eauto.
+           all: try (intros ? ? ? ? []; fail).
+           all: try (intros; apply OutOk_nil; fail).
+           all: try (apply K1_follower; cbn; auto; lia).
+           all: try (cbn; discriminate).
+        -- destruct (g && N.eqb t (term (nd_of s dst)) && negb (memb src (votes (nd_of s dst)))).
+           ++ destruct (N.leb (quorum cfg) (llen (votes (nd_of s dst) ++ [src]))) eqn:Eq.
+              ** eexists. eapply (fi_leader s gl (GDeliver k ok)); eauto.
+                 cbn. destruct (votes (nd_of s dst)); discriminate.
+              ** exists gl. eapply (fi_frame s gl (GDeliver k ok)); eauto.
+                 all: try (intros ? ? ? ? []; fail).
+                 all: try (intros; apply OutOk_nil; fail).
+                 all: try (apply (K1_same cfg quorum_ok); cbn; auto; fail).
+                 all: try (cbn [rl log term]; intros _; apply (c_cand _ _ _ HC0 dst Hdst Er)).
+           ++ exists gl. eapply (fi_frame s gl (GDeliver k ok)); eauto.
+              all: try (intros ? ? ? ? []; fail).
+              all: try (intros; apply OutOk_nil; fail).
+              all: try (apply (K1_refl cfg quorum_ok); fail).
+              all: try (intros _; apply (c_cand _ _ _ HC0 dst Hdst Er)).
+      * exists gl. eapply (fi_frame s gl (GDeliver k ok)); eauto.
+        all: try (intros ? ? ? ? []; fail).
+        all: try (intros; apply OutOk_nil; fail).
+        all: try (apply (K1_refl cfg quorum_ok); fail).
+        all: try (rewrite Er; discriminate).
+    + (* PV *)
+      unfold h_pv in *. destruct (last_info (log (nd_of s dst))) as [mli mlt].
+      exists gl. eapply (fi_frame s gl (GDeliver k ok)); eauto.
+      * apply (K1_refl cfg quorum_ok).
+      * apply (c_cand _ _ _ HC0 dst Hdst).
+      * intros d t0 fol mi [E|[]]. discriminate.
+      * intros a HR HI HM HC. constructor; intros; match goal with H : In _ [_] |- _ => destruct H as [E|[]]; discriminate end.
+    + (* PVR *)
+      pose proof (h_pvr_K1 cfg quorum_ok dst (nd_of s dst) src t g) as HK.
+      exists gl. eapply (fi_frame s gl (GDeliver k ok)); eauto.
+      all: try (intros ? ? ? ? []; fail).
+      all: try (intros; apply OutOk_nil; fail).
+      intros Hc. destruct HK as [Kl [_ [_ KC]]]. destruct (KC Hc) as [[Hoc Hot]|Hlt].
+      * intros e He. rewrite Kl in He. rewrite Hot. apply (c_cand _ _ _ HC0 dst Hdst Hoc e He).
+      * apply (T1_cand s gl a0 dst); auto.
+    + (* AE *)
+      unfold h_ae in *.
+      set (nd := nd_of s dst) in *.
+      set (nd1 := if N.ltb (term nd) t then step_down nd t else nd) in *.
+      assert (Hl1 : log nd1 = log nd) by (unfold nd1; destruct (N.ltb (term nd) t); reflexivity).
+      assert (Ht1 : term nd <= term nd1) by (unfold nd1; destruct (N.ltb_spec (term nd) t); cbn; lia).
+      assert (OutAER : forall tt mi0 a x0, OutOk s gl a dst x0 [(src, AER tt false dst mi0)]).
+      { intros. constructor; intros; match goal with H : In _ [_] |- _ => destruct H as [E|[]]; discriminate end. }
+      destruct (N.eqb_spec t (term nd1)) as [Et|Hne].
+      * match goal with |- context [if (if N.eqb pi 0 then true else ?rest) then _ else _] =>
+          destruct (if N.eqb pi 0 then true else rest) eqn:Elok end.
+        -- rewrite <- Et in *. eexists. eapply (fi_ae s gl (GDeliver k ok) dst _ src t pi pt es _ lc ldr); eauto.
+           all: try (cbn [log]; rewrite Hl1; reflexivity).
+           all: try (unfold nd in *; exact Ht1).
+           rewrite Hl1 in Elok. unfold nd in *. destruct (N.eqb_spec pi 0) as [->|Hpi]; [left; reflexivity|right].
+           destruct (N.leb_spec pi (llen (log (nd_of s dst)))) as [Hle|]; [|discriminate]. split; [exact Hle|].
+           rewrite nth_entry_ent_at in Elok. unfold term_at.
+           destruct (ent_at (log (nd_of s dst)) (N.to_nat pi)) as [x0|] eqn:Ex.
+           ++ apply N.eqb_eq in Elok. cbn. congruence.
+           ++ exfalso. unfold ent_at in Ex. destruct (N.to_nat pi) as [|kk] eqn:Ekk; [lia|].
+              apply nth_error_None in Ex. unfold llen in Hle. lia.
+        -- exists gl. eapply (fi_frame s gl (GDeliver k ok)); eauto.
+           ++ apply K1_follower; cbn; auto.
+           ++ cbn. discriminate.
+           ++ intros d t0 fol mi [E|[]]. discriminate.
+      * exists gl. eapply (fi_frame s gl (GDeliver k ok)); eauto.
+        -- unfold nd1 in *. destruct (N.ltb_spec (term nd) t); [cbn in Hne; congruence|apply (K1_refl cfg quorum_ok)].
+        -- unfold nd1 in *. destruct (N.ltb_spec (term nd) t); [cbn in Hne; congruence|apply (c_cand _ _ _ HC0 dst Hdst)].
+        -- intros d t0 fol mi [E|[]]. discriminate.
+    + (* AER *)
+      pose proof (h_aer_K1 cfg ru quorum_ok dst (nd_of s dst) src t succ mi) as HK.
+      exists gl. eapply (fi_frame s gl (GDeliver k ok)); eauto.
+      all: try (intros ? ? ? ? []; fail).
+      all: try (intros; apply OutOk_nil; fail).
+      intros Hc. destruct HK as [Kl [_ [_ KC]]]. destruct (KC Hc) as [[Hoc Hot]|Hlt].
+      * intros e He. rewrite Kl in He. rewrite Hot. apply (c_cand _ _ _ HC0 dst Hdst Hoc e He).
+      * apply (T1_cand s gl a0 dst); auto.
+  - (* GRestart *)
+    unfold valid_id. destruct (N.ltb_spec i (n_nodes cfg)) as [Hi|]; cbn [fst]; [|exact Stay].
+    exists gl. eapply (fi_frame s gl (GRestart i)); eauto.
+    all: try (intros ? ? ? ? []; fail).
+    all: try (intros; apply OutOk_nil; fail).
+    all: try (apply K1_follower; cbn; auto; lia).
+    all: try (cbn; discriminate).
+    all: try (cbn [gstep]; unfold valid_id; destruct (N.ltb_spec i (n_nodes cfg)); [reflexivity|lia]).
+Qed.
+
+
+Lemma LCI_init : LCI (init_sys cfg) (fun _ => []) Vote.init.
+Proof.
+  constructor; unfold init_sys; cbn [pool].
+  - intros ? ? ? ? ? [].
+  - intros v t m Hv [Ho _]. unfold own in Ho. pose proof (term_at_some_len _ _ _ Ho) as [A B]. cbn in B. lia.
+  - intros t c [].
+  - intros ? ? ? ? ? ? [].
+  - intros c Hc Hr. fold (init_sys cfg) in Hr. rewrite (init_node_of cfg) in Hr. discriminate.
+  - intros ? ? ? ? [].
+  - intros u c [].
+  - intros ? ? ? ? ? ? ? ? [].
+Qed.
+
+Lemma FI_init : FI (init_sys cfg) (fun _ => []).
+Proof.
+  exists Vote.init. split; [apply (R_init cfg)|]. split; [apply Vote.inv_init|]. split; [apply Vote.inv8_init|].
+  split; [|apply LCI_init].
+  constructor; intros; try rewrite (init_node_of cfg) in *; cbn in *;
+    try apply WI_nil; try apply LM_nil; try contradiction; try discriminate; try congruence.
+Qed.
+
+Theorem fi_run : forall ops, exists gl, FI (grun cfg ru ops) gl.
+Proof.
+  intros ops. unfold grun.
+  assert (G : forall ops s gl, FI s gl -> exists gl', FI (fold_left (fun s o => fst (gstep cfg ru s o)) ops s) gl').
+  { induction ops0 as [|o ops0 IH]; intros s gl H; cbn [fold_left]; [eauto|].
+    destruct (fi_step s gl o H) as [gl1 H1]. eapply IH; eauto. }
+  eapply G. apply FI_init.
+Qed.
+
+(* LEADER COMPLETENESS for every reachable state: whenever a quorum has acknowledged position m of the
+   ledger of term t (an entry created in term t), every node that is leader of a later term holds the
+   first m entries of that ledger. *)
+Theorem leader_completeness : forall ops,
+  let s := grun cfg ru ops in
+  exists gl a, LMI cfg s gl a /\ LCI s gl a /\
+    forall t m, QA s gl a t m ->
+      forall c, c < n_nodes cfg -> rl (nd_of s c) = Leader -> t < term (nd_of s c) ->
+        firstn m (log (nd_of s c)) = firstn m (gl t).
+Proof.
+  intros ops s. destruct (fi_run ops) as [gl [a [HR [HI [H8 [HM HC]]]]]]. fold s in HR, HM, HC.
+  exists gl, a. split; [exact HM|]. split; [exact HC|].
+  intros t m HQ c Hc Hl Ht.
+  assert (Hld : Ld a (term (nd_of s c)) c).
+  { pose proof (Vote.I7 _ _ _ HI (N.to_nat c)) as G. rewrite (R_nodes _ _ _ HR c Hc) in G. cbn in G.
+    rewrite Hl in G. apply G. reflexivity. }
+  rewrite (lm_L3 _ _ _ _ HM c Hc Hl).
+  apply (leader_completeness_inv s gl a HC t m HQ _ c Hld Ht).
 Qed.
 
 End Commit.
